@@ -9,7 +9,8 @@ import (
 )
 
 // C22: flushable store = underlying store overlaid with unflushed writes.
-// Stacks: flushable.Wrap(memorydb), Wrap(Wrap(memorydb)), Wrap(leveldb), a few Wrap(pebble);
+// Stacks: flushable.Wrap(memorydb), Wrap(Wrap(memorydb)), Wrap(leveldb), a few Wrap(pebble),
+// flushable.NewLazy over memorydb / leveldb / Wrap(memorydb);
 // ops are addressed to the flushable (depth 0) and to the stores below it (so that "flush makes
 // the underlying store equal to the view" is observed directly).  Some histories keep iterators
 // alive across writes (checked for order/prefix/no panic only) and some write ~50 KB values so
@@ -17,15 +18,21 @@ import (
 
 func c22History(r *rand.Rand, tier string, i int) []string {
 	var header, handles []string
-	switch x := r.Intn(20); {
+	switch x := r.Intn(24); {
 	case x < 9:
 		header, handles = strings.Fields("mem f"), []string{"0", "0", "0", "1"}
 	case x < 14:
 		header, handles = strings.Fields("mem f f"), []string{"0", "0", "0", "1", "1", "2"}
 	case x < 19:
 		header, handles = strings.Fields("ldb f"), []string{"0", "0", "0", "1"}
-	default:
+	case x < 20:
 		header, handles = strings.Fields("pbl f"), []string{"0", "0", "0", "1"}
+	case x < 22: // LazyFlushable: the store below is installed by the first Flush
+		header, handles = strings.Fields("mem z"), []string{"0", "0", "0", "1"}
+	case x < 23:
+		header, handles = strings.Fields("ldb z"), []string{"0", "0", "0", "1"}
+	default:
+		header, handles = strings.Fields("mem f z"), []string{"0", "0", "1", "2"}
 	}
 	c := kvh.GenCfg{Header: header, Handles: handles, NOps: 10 + r.Intn(50), Live: r.Intn(4) == 0,
 		BigValues: r.Intn(10) == 0, SweepPairs: 10}
